@@ -91,14 +91,22 @@ split-independent operation of its caller (`COp.ext`): nested coroutine calls co
 induction over the call graph — Wuffs has no recursion — every finite hierarchy of F3s coroutines
 is covered.) -/
 theorem callee_split_independent (n : Nat) (body : List Stmt) (interp : List Nat → Nat → COp)
-    (hok : ∀ vals t, (interp vals t).OK) (comb : Nat → Nat → Nat → Nat) (fuel : Nat) :
-    (COp.ext (callExt (savedSet n body) body interp comb fuel)).OK := by
+    (hok : ∀ vals t, (interp vals t).OK) (comb : Nat → Nat → Nat → Nat) (fuel : Nat)
+    (g : List Nat → List Nat → List Nat) :
+    (COp.ext ((callExt (savedSet n body) body interp comb fuel).mapArgs g)).OK := by
+  apply Ext.mapArgs_OK
   intro vals w
   have h := split_independent_F3s n body (interp vals) (hok vals) comb fuel w (fun _ => 0)
   simp only [obsC, obsO, SplitObs.mk.injEq] at h
-  obtain ⟨_, hl, hw⟩ := h
+  obtain ⟨ho, hl, hw⟩ := h
+  have hf := calleeFinish_abs
+    (run allSaved (oneCfg (interp vals) comb) fuel (Task.block body) ⟨fun _ => 0, w.abs, []⟩).out
+    (run allSaved (oneCfg (interp vals) comb) fuel (Task.block body) ⟨fun _ => 0, w.abs, []⟩).st.log
+    (run (savedSet n body) (chunkCfg (interp vals) comb) fuel (Task.block body) ⟨fun _ => 0, w, []⟩).st.w
+  rw [hw] at hf
   simp only [callExt]
-  exact ⟨by rw [hl]; rfl, hw⟩
+  rw [ho, hl]
+  exact hf
 
 /-! ### non-vacuity: a loop whose reads and writes straddle the chunk boundaries -/
 
@@ -157,7 +165,7 @@ example :
       ⟨fun _ => 0, initCW [1, 0, 2, 1, 3] [0, 1, 0, 1, 2] exBytes, []⟩) =
       ⟨Out.ret, [0x1234, 1, 1, 0, 0, 0x12CB, 0, 0xAABBCC, 1, 1, 0, 0, 0xAABB33, 0, 0x010203, 0, 0],
        ⟨[0xFF], [0x34, 0x12, 0xCB, 0xCC, 0xBB, 0x33], 8,
-        ⟨[], 0, false, [0x1234, 1, 1, 0x12CB, 0xAABBCC, 1, 1, 0xAABB33, 0x010203, 0, 0], 0⟩⟩⟩ ∧
+        ⟨[], 0, false, [0x1234, 1, 1, 0x12CB, 0xAABBCC, 1, 1, 0xAABB33, 0x010203, 0, 0], 0, 0⟩⟩⟩ ∧
     ((run (savedSet 3 exLoop) (chunkCfg exInterp (fun _ a b => a + b)) 40 (Task.block exLoop)
       ⟨fun _ => 0, initCW [1, 0, 2, 1, 3] [0, 1, 0, 1, 2] exBytes, []⟩).evs.filter (· == Ev.susp)).length = 10 := by
   decide +kernel
@@ -173,7 +181,7 @@ example :
 example :
     (obsC (run (savedSet 3 exLoop) (chunkCfg exInterp (fun _ a b => a + b)) 40 (Task.block exLoop)
       ⟨fun _ => 0, initCW [3, 1] [] (exBytes.take 4), []⟩)).world =
-      ⟨[], [0x34, 0x12, 0xCB], 4, ⟨[], 0x12CB, true, [0x1234, 1, 1, 0x12CB], 0⟩⟩ := by
+      ⟨[], [0x34, 0x12, 0xCB], 4, ⟨[], 0x12CB, true, [0x1234, 1, 1, 0x12CB], 0, 0⟩⟩ := by
   decide +kernel
 
 end WuffsVerif.Props.C05
